@@ -123,7 +123,10 @@ gen::TriMesh tetrahedron() {
 // ---- own geometry of an input -----------------------------------------------------------------------
 struct Own {
     orc::Geo g; R r = 0, D = 0, perimeter = 0; long F = 0; bool closed = false; std::string why;
-    R tolV() const { return 256 * EPS * std::sqrt((R)F) * (D + r) * (D + r) * (D + r); }  // 64 in DESIGN.md left only a 10x margin over a 48 000-mesh soak; 256 restores >30x, still <1e-12 relative at D=0
+    // the repository sums the tetrahedron volumes with a node of the cell as apex (since fix e17e996; before, with the origin as apex, the bound
+    // had to grow like (D+r)^3): coordinates relative to the apex are at most 2r, whatever the distance D from the origin; the subtraction of the apex
+    // rounds at eps*(D+r), which moves the surface by that much: A eps (D+r)
+    R tolV() const { return 256 * EPS * std::sqrt((R)F) * 8 * r * r * r + 64 * EPS * g.area * (D + r); }
     R tolA() const { return 1e-11L * g.area; }
     R tolC() const { return 1e-12L * (D + r); }
 };
